@@ -200,9 +200,11 @@ def s4_one_debit_per_fill(ctx):
     M = ctx.M
     calls = calls_named(M, 'transact_asset')
     ctx.floor('C01.S4', 'call sites of transact_asset', len(calls), 1)
+    from ..lib import private_closure
+    fill_path = private_closure(M, {'SimulatedBroker.update', 'SimulatedBroker._execute_order'})      # the broker's own private steps of filling an order
     for f, n in calls:
-        ctx.require(f.qn == 'SimulatedBroker._execute_order', 'C01.S4', 'transact_asset called from %s' % f.qn, f.site(n),
-                    'a fill is debited only through SimulatedBroker._execute_order', key='C01.S4|caller|%s' % f.qn)
+        ctx.require(f.qn in fill_path and f.qn != 'SimulatedBroker.update' or f.qn == 'SimulatedBroker._execute_order', 'C01.S4', 'transact_asset called from %s' % f.qn, f.site(n),
+                    'a fill is debited only through the order-execution steps of SimulatedBroker', key='C01.S4|caller|%s' % f.qn)
     ps = summarise(ctx, 'SimulatedBroker._execute_order', policy=port_policy)
     for p in normal(ps):
         cs = [e for e in p.flat_events() if e.kind == 'call' and 'Portfolio.transact_asset' in e.callee]
